@@ -58,6 +58,40 @@ P = {
          '(names/separators) and of Python-escaped strings is exercised by the correspondence, not yet a theorem; parameter objects opaque',
     technique='Lean 4 proof (prefix-code induction) + proved counterexample + differential correspondence',
     ref='§4 C03'),
+ 'C01': dict(
+    text='Lean 4: the lazy pull machine TCV.Store (memory, store, forced flags, run log, failing runs, task/chain forcing) over an '
+         'arbitrary universe of task objects of arbitrarily many chains/configs/processes on one data directory: history_sound — over '
+         'every operation history of any length, if equal location implies equal computation and the initial store is good (e.g. '
+         'empty), every value ever returned equals the semantic value of the requested computation (computed, in memory or loaded), '
+         'and the invariant survives failures; the necessity of the location hypothesis is proved by a counterexample. '
+         'Correspondence: random histories (requests, failures, forcing, simulated and real interpreter restarts, contexts, double '
+         'mounting) on the real code vs the model per operation, plus a reference provenance term computed from the config tree.',
+    note='partial: the hypothesis LocDeterminesComp is discharged by C02/C03 only outside findings K1/K3 (K3 in-domain here and reported as '
+         'KNOWN-FINDING); builder-level correctness of descriptors is C08/C09; chain structure is extracted from the implementation; '
+         'parameter mode; data-class byte formats are C06',
+    technique='Lean 4 proof (invariant by induction over histories, inner induction over recursion depth) + differential correspondence',
+    ref='§4 C01'),
+ 'C04': dict(
+    text='Lean 4 over TCV.Store: a result in memory, or stored and not forced, is served without running anything, requesting any '
+         'input or touching the store (served_from_memory / served_from_store, any state, any upstream), inspection changes nothing, a '
+         'request only appends to the run log and never forgets results (request_frame), a second request after a successful one runs '
+         'nothing. Correspondence: random histories without force/failure/deletion on the real code vs the model (values, run-log '
+         'delta with order, in-memory/stored sets per operation) and an oracle on the real run log (no location twice, nothing run by '
+         'construction/inspection, nothing available run, only the used upstream closure).',
+    note='the global statement "at most once per location over a whole history" is decided by the oracle + correspondence; the theorems are the '
+         'per-request laws it follows from (the history-level induction is not yet a single theorem); restarts simulated in-process here',
+    technique='Lean 4 proof (one-step laws + frame induction) + differential correspondence',
+    ref='§4 C04'),
+ 'C07': dict(
+    text='Lean 4 over TCV.Store: the set marked by chain.force is exactly the reflexive-transitive downstream closure defined by '
+         'inductive reachability over declared edges (force_marks_exactly, any DAG), forcing clears exactly their memory, runs nothing, '
+         'leaves upstream/unrelated tasks and (without delete_data) the store untouched, delete_data removes exactly the forced '
+         'persisting results, a forced task goes through run on its next request and replaces the stored result. Correspondence: '
+         'random histories with task/chain forcing and all flags vs the model per operation; oracle with an independent graph search.',
+    note='"recompute runs every forced task exactly once for every iteration order" is decided by oracle + correspondence (the observed '
+         'iteration order is fed to the model); networkx is replaced by the model\'s own reachability',
+    technique='Lean 4 proof (reachability induction, state-effect lemmas) + differential correspondence',
+    ref='§4 C07'),
 }
 
 checks, na = [], []
